@@ -48,8 +48,33 @@ class Model:
         src = peel(o.local(self.LINES))
         if not (src.kind == "call" and peel(src.kids[0]).kind == "arg" and peel(src.kids[0]).a == 2):
             raise AnchorError("DiffTool::diff: LINES is not split_at_newline(output)")
+        # loops: one outer loop over the cursors; inner loops are accepted only as the explicit form of the ranged-unmatched
+        # idiom and are contracted into a single event (see _summarise_inner)
+        all_back = f.back_edges()
+        heads = {h for _, h in all_back}
+        outer = [h for h in heads if all(f.dominates(h, h2) for h2 in heads)]
+        if len(outer) != 1:
+            raise AnchorError("DiffTool::diff: expected one outermost loop, found heads %s" % sorted(heads))
+        self.head = outer[0]
+        self.back = [(b, h) for b, h in all_back if h == self.head]
+        self.inner_body = {}
+        for h in sorted(heads - {self.head}):
+            body = {h}
+            for b, hh in all_back:
+                if hh != h:
+                    continue
+                stack = [b]
+                body.add(b)
+                while stack:
+                    x = stack.pop()
+                    for pq in f.preds[x]:
+                        if pq not in body and f.dominates(h, pq):
+                            body.add(pq)
+                            stack.append(pq)
+            self.inner_body[h] = body
+        self.inner_blocks = set().union(*self.inner_body.values()) if self.inner_body else set()
         for bb, t in f.calls():
-            if mname(t) != "Index::index":
+            if mname(t) != "Index::index" or bb in self.inner_blocks:
                 continue
             st = strip_mods(t.get("self_ty", ""))
             recv = self._ref_target(t["args"][0])
@@ -82,12 +107,7 @@ class Model:
         c = f.canon_place(dn[0][1]["args"][0].get("move") or dn[0][1]["args"][0].get("copy"))
         self.D = c["l"]
         self.diff_new_bb = dn[0][0]
-        # loop head: the block computing `E < len(EXPS)` that dominates the back edges
-        self.back = f.back_edges()
-        heads = {s for _, s in self.back}
-        if len(heads) != 1:
-            raise AnchorError("DiffTool::diff: expected a single loop, found heads %s" % sorted(heads))
-        self.head = heads.pop()
+        self.inner = {h: self._summarise_inner(h, body) for h, body in self.inner_body.items()}
         # to_output_list closure
         self.tol = None
         for l in range(len(f.locals)):
@@ -266,8 +286,79 @@ class Model:
         return False
 
     # -- events -----------------------------------------------------------------------------
+    def _summarise_inner(self, h, body):
+        """explicit form of the ranged idiom:  for i in A..B { if !EXPS[i].optional { D.push(Unmatched{ index: i, expectation: EXPS[i].clone() }) } }
+        -> (("ranged", where, info), exit_block)"""
+        f, o = self.f, self.o
+        where = f.loc(h)
+        nexts = [(bb, t) for bb, t in f.calls() if bb in body and mname(t) == "Iterator::next"]
+        if len(nexts) != 1 or "Range<usize>" not in strip_mods(nexts[0][1].get("self_ty", "") or ""):
+            raise AnchorError("DiffTool::diff: inner loop at %s is not a `for i in a..b` loop" % where)
+        nb, nt = nexts[0]
+        ve, rv = variant_edges(f, nt["target"])
+        if ve is None or set(ve) != {"Some", "None"} or ve["None"] in body or ve["Some"] not in body:
+            raise AnchorError("DiffTool::diff: inner loop at %s: iterator result is not matched Some/None" % where)
+        exits = {s2 for b in body for s2 in f.succ(b) if s2 not in body and not f.blocks[s2]["cleanup"] and f.blocks[s2]["term"]["k"] != "unreachable"}
+        if exits != {ve["None"]}:
+            raise AnchorError("DiffTool::diff: inner loop at %s has exits other than iterator exhaustion (%s)" % (where, sorted(exits)))
+        info = {"start": None, "end": None, "filter_ok": False, "push_ok": False, "targets_d": False}
+        it = o.operand(nt["args"][0])
+        rngs = [n for n in it.walk() if n.kind == "agg" and n.a[0].endswith("Range::Range") and n.at is not None]
+        if len(rngs) == 1:
+            st = f.blocks[rngs[0].at[0]]["stmts"][rngs[0].at[1]]
+            info["start"] = self.kind_of_index(st["rv"]["ops"][0])
+            info["end"] = self.kind_of_index(st["rv"]["ops"][1])
+
+        def is_i(tree):
+            n = peel(tree)
+            return n.kind == "field" and n.a == "0" and n.kids and n.kids[0].kind == "variant" and n.kids[0].a == "Some" and \
+                any(k.kind == "call" and k.at is not None and k.at[0] == nb for k in n.walk())
+
+        def is_exp_i(tree):
+            return any(n.kind == "call" and method_name(n.a) == "Index::index" and len(n.kids) == 2 and is_i(n.kids[1]) and
+                       any(k.kind == "field" and k.a == self.exps_field for k in n.kids[0].walk()) for n in tree.walk())
+        # any write to a cursor / the run marker / other effects inside the inner loop are not part of the idiom
+        for b in body:
+            for st in f.blocks[b]["stmts"]:
+                if st["k"] == "assign" and not st["lhs"]["p"] and st["lhs"]["l"] in (self.E, self.L, self.M):
+                    raise AnchorError("DiffTool::diff: inner loop at %s writes a cursor" % where)
+        pushes = [(bb, t) for bb, t in f.calls() if bb in body and mname(t) == "Vec::push"]
+        if len(pushes) == 1:
+            pb, pt = pushes[0]
+            info["targets_d"] = (self._ref_target(pt["args"][0]) or {}).get("l") == self.D
+            a = peel(o.operand(pt["args"][1]))
+            if a.kind == "agg" and a.a[0].endswith("DiffLine::UnmatchedExpectation"):
+                vals = dict(zip(a.a[1], a.kids))
+                ex = peel(vals["expectation"])
+                info["push_ok"] = is_i(vals["index"]) and ex.kind == "call" and method_name(ex.a) in ("Clone::clone", "ToOwned::to_owned", "Index::index") and is_exp_i(ex)
+            # guard: the push is control dependent on `!EXPS[i].optional`
+            for sb in body:
+                be = bool_edges(f, sb) if f.blocks[sb]["term"]["k"] == "switch" else None
+                if be is None:
+                    continue
+                tt, tf = be
+                inner_back = [(b, h)] if False else [(b2, h2) for b2, h2 in f.back_edges() if h2 == h]
+                on_t = pb in f.reachable(tt, removed_edges=inner_back)
+                on_f = pb in f.reachable(tf, removed_edges=inner_back)
+                if on_t == on_f:
+                    continue
+                tree = cond_tree(f, sb, o)
+                neg = False
+                while tree.kind == "un" and tree.a == "Not":
+                    neg = not neg
+                    tree = tree.kids[0]
+                tr = peel(tree)
+                is_opt = tr.kind == "field" and tr.a == "optional" and is_exp_i(tr)
+                # push when optional is false
+                pushes_when_optional = on_f if neg else on_t
+                info["filter_ok"] = bool(is_opt and not pushes_when_optional)
+        return ("ranged", where, info), ve["None"]
+
     def events(self, bb):
         if bb in self._events:
+            return self._events[bb]
+        if bb in self.inner:
+            self._events[bb] = [self.inner[bb][0]]
             return self._events[bb]
         f = self.f
         ev = []
@@ -533,6 +624,8 @@ class Model:
             t = f.blocks[bb]["term"]
             facts = self.edge_facts(bb)
             succs = f.succ(bb)
+            if bb in self.inner:
+                facts, succs = {}, [self.inner[bb][1]]
             for nb in succs:
                 ns = dict(s)
                 feasible = True
